@@ -188,4 +188,47 @@ static inline int spec_div_defined(uint64_t n, uint64_t d, unsigned bits, int sg
   if (sg && spec_trunc(d, bits) == spec_mask(bits) && spec_trunc(n, bits) == ((uint64_t)1 << (bits - 1))) return 0;
   return 1;
 }
+
+/* Quotient / remainder in the form a solver can match: r equals the truncating quotient (remainder) computed by ONE of
+ * several C expressions that are equal by C arithmetic -- at the lane's own width or at the promoted width, on the
+ * zero-extended or the sign-extended operands.  Callers guarantee spec_div_defined(). */
+#ifdef AVM_NATIVE
+static inline int spec_div_ok(uint64_t r, uint64_t n, uint64_t d, unsigned bits, int sg, int rem) {
+  uint64_t e = sg ? (rem ? spec_srem(n, d, bits) : spec_sdiv(n, d, bits)) : (rem ? spec_urem(n, d, bits) : spec_udiv(n, d, bits));
+  return (r & spec_mask(bits)) == e;
+}
+#elif defined(AVM_DIV_UF)
+/* the function under contract only routes to the divide instruction: same uninterpreted operation, promoted operands */
+static inline int spec_div_ok(uint64_t r, uint64_t n, uint64_t d, unsigned bits, int sg, int rem) {
+  n &= spec_mask(bits); d &= spec_mask(bits); r &= spec_mask(bits);
+  if (bits <= 32) {
+    if (sg) { int32_t a = (int32_t)spec_sx(n, bits), b = (int32_t)spec_sx(d, bits);
+      return r == ((uint64_t)(uint32_t)(rem ? __CPROVER_uninterpreted_rem_i32(a, b) : __CPROVER_uninterpreted_div_i32(a, b)) & spec_mask(bits)); }
+    if (bits < 32) { int32_t a = (int32_t)n, b = (int32_t)d;   /* unsigned 8/16-bit operands promote to int */
+      return r == ((uint64_t)(uint32_t)(rem ? __CPROVER_uninterpreted_rem_i32(a, b) : __CPROVER_uninterpreted_div_i32(a, b)) & spec_mask(bits)); }
+    { uint32_t a = (uint32_t)n, b = (uint32_t)d;
+      return r == (uint64_t)(rem ? __CPROVER_uninterpreted_rem_u32(a, b) : __CPROVER_uninterpreted_div_u32(a, b)); }
+  }
+  if (sg) return r == (uint64_t)(rem ? __CPROVER_uninterpreted_rem_i64((int64_t)n, (int64_t)d) : __CPROVER_uninterpreted_div_i64((int64_t)n, (int64_t)d));
+  return r == (rem ? __CPROVER_uninterpreted_rem_u64(n, d) : __CPROVER_uninterpreted_div_u64(n, d));
+}
+#else
+static inline int spec_div_ok(uint64_t r, uint64_t n, uint64_t d, unsigned bits, int sg, int rem) {
+  n &= spec_mask(bits); d &= spec_mask(bits); r &= spec_mask(bits);
+  if (!sg) {
+    switch (bits) {
+      case 8:  { uint8_t a = (uint8_t)n, b = (uint8_t)d; return rem ? (r == (uint8_t)(a % b) || r == (uint8_t)((uint32_t)a % (uint32_t)b)) : (r == (uint8_t)(a / b) || r == (uint8_t)((uint32_t)a / (uint32_t)b)); }
+      case 16: { uint16_t a = (uint16_t)n, b = (uint16_t)d; return rem ? (r == (uint16_t)(a % b) || r == (uint16_t)((uint32_t)a % (uint32_t)b)) : (r == (uint16_t)(a / b) || r == (uint16_t)((uint32_t)a / (uint32_t)b)); }
+      case 32: { uint32_t a = (uint32_t)n, b = (uint32_t)d; return rem ? (r == a % b || r == (uint32_t)(n % d)) : (r == a / b || r == (uint32_t)(n / d)); }
+      default: return rem ? r == n % d : r == n / d;
+    }
+  }
+  switch (bits) {
+    case 8:  { int8_t a = (int8_t)(uint8_t)n, b = (int8_t)(uint8_t)d; return r == (uint8_t)(rem ? a % b : a / b); }
+    case 16: { int16_t a = (int16_t)(uint16_t)n, b = (int16_t)(uint16_t)d; return r == (uint16_t)(rem ? a % b : a / b); }
+    case 32: { int32_t a = (int32_t)(uint32_t)n, b = (int32_t)(uint32_t)d; return r == (uint32_t)(rem ? a % b : a / b) || r == (uint32_t)(rem ? (int64_t)a % (int64_t)b : (int64_t)a / (int64_t)b); }
+    default: { int64_t a = (int64_t)n, b = (int64_t)d; return r == (uint64_t)(rem ? a % b : a / b); }
+  }
+}
+#endif
 #endif
